@@ -109,6 +109,7 @@ theorem taskFailed_spec {s s' : State} {worker : Option Nat} {id : TaskId} {ret 
     (∃ (task : Task) (consumers : List TaskId) (s3 : State), s.task? id = some task ∧ o.cbs = [.error id consumers] ∧
       consumers.Nodup ∧ id ∉ consumers ∧ (∀ c ∈ consumers, c ∈ taskIds s.tasks ∧ c.1 = id.1) ∧
       (∀ t, t ∈ taskIds s3.tasks ↔ t ∈ taskIds s.tasks ∧ t ≠ id ∧ t ∉ consumers) ∧ Frc s s3 ∧
+      (taskIds s3.tasks).Nodup ∧
       ((ret.isEmpty = true ∧ s' = s3) ∨ (ret.isEmpty = false ∧ ∃ o2, s3.cancelTasks ret = .ok (s', o2)))) := by
   simp only [State.taskFailed] at h
   split at h
@@ -168,11 +169,11 @@ theorem taskFailed_spec {s s' : State} {worker : Option Nat} {id : TaskId} {ret 
             all_goals first
               | (cases h; done)
               | (cases h
-                 exact ⟨task, consumers, _, ht, rfl, cnd, hnot, hall, hids, f123, .inl ⟨by assumption, rfl⟩⟩)
+                 exact ⟨task, consumers, _, ht, rfl, cnd, hnot, hall, hids, f123, hn3, .inl ⟨by assumption, rfl⟩⟩)
               | (cases h
                  have hne : ¬ ret.isEmpty = true := by assumption
                  rename_i out2 hct
-                 refine ⟨task, consumers, _, ht, ?_, cnd, hnot, hall, hids, f123,
+                 refine ⟨task, consumers, _, ht, ?_, cnd, hnot, hall, hids, f123, hn3,
                    .inr ⟨by simpa using hne, _, hct⟩⟩
                  show [Cb.error id consumers] ++ _ = _
                  rw [(cancelTasks_spec hn3 hcj3 hct).1]
